@@ -111,13 +111,19 @@ def neighbourhoods(line):
     yield 'empty-neighbours', '\n', '\n'
     yield 'three-more', 'a\nbb\n', '\ncc\ndd\nee'
     yield 'long-neighbours', 'q' * 130 + '\n', '\n' + 'r' * 130
+    # characters that str.splitlines() treats as line boundaries but that are NOT line breaks for
+    # sourcer (only '\n' is): they must not start a new line in positions or excerpts
+    yield 'cr-before', 'ab\rcd\n', ''
+    yield 'exotic-separators-before', 'a\x0bb\x0cc\x1cd\x1de\x1ef\x85g\u2028h\u2029i\n', '\n\x0c\u2028'
+    yield 'crlf', 'ab\r\ncd\r\n', '\r\nxyz'
+    yield 'same-line-exotic', 'zz\n' + 'k\x0ck\rk\u2028k\x85', '\x0c\rtail\nnext'
 
 
 def sweep(rec, lengths, shard_filter):
     letters = 'abcdefghijklmnopqrstuvwxyz'
     Gs = {
-        'parse-error': gast.simple_grammar({'start': ('left', ('re', '[a-z\\n]*', False), ('str', '!'))}),
-        'partial': gast.simple_grammar({'start': ('re', '[a-z\\n]*', False)}),
+        'parse-error': gast.simple_grammar({'start': ('left', ('re', '[^#]*', False), ('str', '!'))}),
+        'partial': gast.simple_grammar({'start': ('re', '[^#]*', False)}),
     }
     built = {}
     counter = contracts.Counter()
@@ -223,6 +229,10 @@ def general(rec, n, quick):
             rec.drop()
             continue
         ins = work.inputs_for('a\nb' if multi else 'ab#', 4 if quick else 5)
+        if multi:
+            # the same inputs with line-boundary look-alikes in front (never consumed by the grammar's
+            # tokens: entry positions 1 and 2 skip them)
+            ins = ins + [c + t for t in ins[:40] for c in ('\r', '\x0c', '\u2028')]
         entries = work.rule_entries(G)[:3]
 
         def on_result(b, text, entry, pos, fp, exp, o, model):
